@@ -10,6 +10,8 @@ package main
 //	                                       monitors: panic, duplicate, phantom, lost, per-producer FIFO (queue), "empty only
 //	                                       if it could have been empty" (conservative, from invocation/response stamps);
 //	                                       observation: ok offered=P*N removed=P*N   |  viol <kind> …
+//	fresh q|s <impl> k=K rounds=R seed=S   R brand-new wrappers; on each, K goroutines released by a spin barrier make their
+//	                                       FIRST call together, then the structure is drained: conservation per round
 //	hist q|s <impl> t=T k=K seed=S         T threads × K random calls, free-running; the recorded history is searched for a
 //	                                       linearization (exhaustive, ≤ 12 calls); ok linearizable ops=T*K | viol not-linearizable …
 //
@@ -21,6 +23,8 @@ package main
 
 import (
 	"fmt"
+	"os"
+	"path/filepath"
 	"math/rand"
 	"runtime"
 	"sort"
@@ -270,6 +274,8 @@ type c08Call struct {
 // c08Stress runs the producers/consumers and evaluates the monitors.
 func c08Stress(kind, impl string, p, c, n int, seed int64) string {
 	total := p * n
+	epoch := atomic.LoadInt64(&c08Epoch)
+	abandoned := func() bool { return atomic.LoadInt64(&c08Epoch) != epoch }
 	o := c08New(kind, impl, total+1)
 	var clock, removed, prodDone int64
 	var panics int64
@@ -305,7 +311,11 @@ func c08Stress(kind, impl string, p, c, n int, seed int64) string {
 					res := atomic.AddInt64(&clock, 1)
 					if err == nil {
 						mine = append(mine, c08Call{thread: t, insert: true, val: v, inv: inv, res: res})
+						atomic.AddInt64(&c08Progress, 1)
 						break
+					}
+					if abandoned() {
+						return
 					}
 					if o.ring != nil && (err == fpgo.ErrQueueIsFull || err == fpgo.ErrStackIsFull) {
 						runtime.Gosched() // a bounded wrapped object: retry until a consumer has made room
@@ -330,7 +340,7 @@ func c08Stress(kind, impl string, p, c, n int, seed int64) string {
 			var mine []c08Call
 			defer func() { calls[t] = mine }()
 			for i := 0; ; i++ {
-				if atomic.LoadInt64(&removed) >= int64(total) {
+				if atomic.LoadInt64(&removed) >= int64(total) || abandoned() {
 					return
 				}
 				allIn := atomic.LoadInt64(&prodDone) == int64(p) // read BEFORE the call is invoked
@@ -347,6 +357,7 @@ func c08Stress(kind, impl string, p, c, n int, seed int64) string {
 				}
 				res := atomic.AddInt64(&clock, 1)
 				if err == nil {
+					atomic.AddInt64(&c08Progress, 1)
 					atomic.AddInt64(&removed, 1)
 					mine = append(mine, c08Call{thread: t, val: v, inv: inv, res: res})
 					continue
@@ -542,6 +553,7 @@ func c08Hist(kind, impl string, t, k int, seed int64) string {
 					op.ret = c08ShowVal(o.h(th).take())
 				}
 				op.res = atomic.AddInt64(&clock, 1)
+				atomic.AddInt64(&c08Progress, 1)
 				all[th] = append(all[th], op)
 			}
 		}(th)
@@ -572,7 +584,197 @@ func c08Hist(kind, impl string, t, k int, seed int64) string {
 	return fmt.Sprintf("ok linearizable ops=%d", t*k)
 }
 
+// Watchdog (bounds the cost of a broken tree): every case reports progress through c08Progress; if a case makes no
+// progress for c08IdleDur() the driver gives the case up as `viol no-progress` instead of sitting out the per-case
+// deadline and a process restart, and bumps c08Epoch so that the abandoned case's retry loops stop spinning.  The first
+// three events are awaited generously (6 s: a loaded machine must not cause a false alarm), later ones 1.5 s.
+var c08Progress, c08Epoch int64
+var c08Stuck int32
+
+func c08MarkerPath() string { // see c07MarkerPath: only inside the per-run directory of one check run
+	exe, err := os.Executable()
+	if err != nil || !strings.HasPrefix(filepath.Base(filepath.Dir(exe)), "run-") {
+		return ""
+	}
+	return filepath.Join(filepath.Dir(exe), "c08-broken.marker")
+}
+
+func init() {
+	if p := c08MarkerPath(); p != "" {
+		if _, err := os.Stat(p); err == nil {
+			atomic.StoreInt32(&c08Stuck, 10)
+		}
+	}
+}
+
+func c08IdleDur() time.Duration {
+	if n := atomic.LoadInt32(&c08Stuck); n >= 10 {
+		return 500 * time.Millisecond
+	} else if n >= 3 {
+		return 1500 * time.Millisecond
+	}
+	return 6 * time.Second
+}
+
 func c08Run(line string) string {
+	done := make(chan string, 1)
+	go func() {
+		defer func() {
+			if r := recover(); r != nil {
+				done <- "panic"
+			}
+		}()
+		done <- c08RunInner(line)
+	}()
+	last, lastT := atomic.LoadInt64(&c08Progress), time.Now()
+	tick := time.NewTicker(20 * time.Millisecond)
+	defer tick.Stop()
+	for {
+		select {
+		case r := <-done:
+			return r
+		case <-tick.C:
+			if cur := atomic.LoadInt64(&c08Progress); cur != last {
+				last, lastT = cur, time.Now()
+			} else if idle := c08IdleDur(); time.Since(lastT) > idle {
+				if atomic.AddInt32(&c08Stuck, 1) == 3 {
+					if p := c08MarkerPath(); p != "" {
+						os.WriteFile(p, []byte("three stuck cases seen in this check run\n"), 0o644)
+					}
+				}
+				atomic.AddInt64(&c08Epoch, 1)
+				return fmt.Sprintf("viol no-progress for %v (calls blocked or retrying forever)", idle)
+			}
+		}
+	}
+}
+
+// c08Fresh — "fresh object, first calls race": `rounds` times a brand-new wrapper is built and k goroutines, released
+// together by a spin barrier, make their FIRST call on it (insertions of distinct values; in some rounds the last
+// goroutine removes instead).  Then the structure is drained sequentially.  Conservation per round: every accepted
+// value comes back exactly once (from the racing remover or from the drain), nothing else does, nobody panics, no
+// two goroutines were inside the wrapped ring at once.  Observation: ok rounds=R | viol fresh round=… .
+func c08Fresh(kind, impl string, k, rounds int, seed int64) string {
+	if k < 1 || k > 16 {
+		return "bad-case"
+	}
+	type res struct {
+		ins, acc bool
+		val      int
+		got      bool
+		panicked bool
+	}
+	out := make([]res, k)
+	for r := 0; r < rounds; r++ {
+		o := c08New(kind, impl, 2*k+2)
+		var start int32
+		var wg sync.WaitGroup
+		withRemover := k >= 2 && (int64(r)+seed)%3 == 0
+		for g := 0; g < k; g++ {
+			out[g] = res{}
+			wg.Add(1)
+			go func(g int) {
+				defer wg.Done()
+				defer func() {
+					if rec := recover(); rec != nil {
+						out[g].panicked = true
+					}
+				}()
+				h := o.h(g)
+				remover := withRemover && g == k-1
+				for atomic.LoadInt32(&start) == 0 {
+				}
+				if remover {
+					var v int
+					var err error
+					switch {
+					case kind == "s":
+						v, err = h.pop()
+					default:
+						v, err = h.poll()
+					}
+					out[g].val, out[g].got = v, err == nil
+					return
+				}
+				var err error
+				switch {
+				case kind == "s":
+					err = h.push(g + 1)
+				case g%2 == 0 || c08Base(impl) == "chq":
+					err = h.offer(g + 1)
+				default:
+					err = h.put(g + 1)
+				}
+				out[g].ins, out[g].acc, out[g].val = true, err == nil, g+1
+			}(g)
+		}
+		atomic.StoreInt32(&start, 1)
+		wg.Wait()
+		atomic.AddInt64(&c08Progress, 1)
+		if ov := o.overlaps(); ov != 0 {
+			return fmt.Sprintf("viol fresh round=%d overlap: %d times two first calls were inside the wrapped object at once", r, ov)
+		}
+		seen := make([]int, k+2)
+		note := func(v int) bool {
+			if v < 1 || v > k {
+				return false
+			}
+			seen[v]++
+			return true
+		}
+		for g := 0; g < k; g++ {
+			if out[g].panicked {
+				return fmt.Sprintf("viol fresh round=%d panic in a first call", r)
+			}
+			if !out[g].ins && out[g].got && !note(out[g].val) {
+				return fmt.Sprintf("viol fresh round=%d phantom value=%d removed by a first call", r, out[g].val)
+			}
+		}
+		drained, bad := 0, ""
+		func() {
+			defer func() {
+				if rec := recover(); rec != nil {
+					bad = fmt.Sprintf("viol fresh round=%d panic while draining", r)
+				}
+			}()
+			for i := 0; i < 2*k+2; i++ {
+				var v int
+				var err error
+				if kind == "s" {
+					v, err = o.pop()
+				} else {
+					v, err = o.poll()
+				}
+				if err != nil {
+					break
+				}
+				drained++
+				if !note(v) {
+					bad = fmt.Sprintf("viol fresh round=%d phantom value=%d drained", r, v)
+					return
+				}
+			}
+		}()
+		if bad != "" {
+			return bad
+		}
+		for g := 0; g < k; g++ {
+			if !out[g].ins {
+				continue
+			}
+			want := 0
+			if out[g].acc {
+				want = 1
+			}
+			if seen[out[g].val] != want {
+				return fmt.Sprintf("viol fresh round=%d value %d (accepted=%v) came back %d times after %d racing first calls", r, out[g].val, out[g].acc, seen[out[g].val], k)
+			}
+		}
+	}
+	return fmt.Sprintf("ok rounds=%d", rounds)
+}
+
+func c08RunInner(line string) string {
 	head, body := line, ""
 	if i := strings.Index(line, ": "); i >= 0 {
 		head, body = line[:i], line[i+2:]
@@ -590,6 +792,7 @@ func c08Run(line string) string {
 			t = strings.TrimSpace(t)
 			if t != "" {
 				outs = append(outs, c08Tok(o.h(len(outs)), t)) // nested wrappers: calls alternate between the two handles
+				atomic.AddInt64(&c08Progress, 1)
 			}
 		}
 		if o.overlaps() != 0 {
@@ -598,6 +801,8 @@ func c08Run(line string) string {
 		return strings.Join(outs, " | ")
 	case "stress":
 		return c08Stress(kind, impl, c08Field(toks, "p"), c08Field(toks, "c"), c08Field(toks, "n"), int64(c08Field(toks, "seed")))
+	case "fresh":
+		return c08Fresh(kind, impl, c08Field(toks, "k"), c08Field(toks, "rounds"), int64(c08Field(toks, "seed")))
 	case "hist":
 		return c08Hist(kind, impl, c08Field(toks, "t"), c08Field(toks, "k"), int64(c08Field(toks, "seed")))
 	}
@@ -684,7 +889,7 @@ func c08Gen(tier string, rng *rand.Rand, emit func(string)) map[string]interface
 	}
 	rounds, n := 1, 4000
 	if thorough {
-		rounds, n = 6, 20000
+		rounds, n = 4, 20000
 	}
 	for r := 0; r < rounds; r++ {
 		for _, cf := range cfgs {
@@ -723,6 +928,26 @@ func c08Gen(tier string, rng *rand.Rand, emit func(string)) map[string]interface
 			}
 		}
 	}
+	// 2b. fresh objects: the very first calls on a just-constructed wrapper race each other
+	freshCases, freshRounds := 0, 0
+	type fr struct {
+		ki     string
+		k, rds int
+	}
+	frs := []fr{{"s llq", 4, 90000}, {"q llq", 4, 60000}, {"s llq", 2, 30000}, {"q llq", 3, 20000}, {"s ring8", 4, 15000},
+		{"q ring2", 4, 15000}, {"s cc-llq", 4, 15000}, {"q cc-llq", 4, 15000}, {"q chq", 4, 10000}, {"s llq", 8, 10000}}
+	for _, f := range frs {
+		rds := f.rds
+		if thorough {
+			rds *= 8
+		}
+		// several lines per kind: a hit ends its line early, the others still run
+		for part := 0; part < 3; part++ {
+			emit(fmt.Sprintf("fresh %s k=%d rounds=%d seed=%d", f.ki, f.k, rds/3, rng.Intn(1000000)))
+			freshCases++
+			freshRounds += rds / 3
+		}
+	}
 	// 3. small free-running histories, searched exhaustively for a linearization
 	nh := 300
 	if thorough {
@@ -736,6 +961,7 @@ func c08Gen(tier string, rng *rand.Rand, emit func(string)) map[string]interface
 		histCases++
 	}
 	return map[string]interface{}{
+		"fresh_cases": freshCases, "fresh_objects": freshRounds,
 		"exhaustive": false, "seq_cases": seqCases, "stress_cases": stressCases, "hist_cases": histCases,
 		"seq_exhaustive_scope": fmt.Sprintf("all call sequences: queue/llq ≤%d over 4 methods, stack/llq ≤%d over 2, queue/chq ≤%d over 2", ql, sl, cl),
 		"stress_threads": "producers × consumers ∈ {1,2,4,8,16}²", "hist_max_calls": 12,
